@@ -846,3 +846,240 @@ Proof.
   destruct (evaluate_print_statement f1 nest s) as [[u|e l|pp| |] s']; try exact I; [|exact H].
   destruct H as [_ (_ & Hc & _)]. exact Hc.
 Qed.
+
+(* ---- FOR, DIM, READ ---- *)
+
+Lemma drop_loop_fields sym s :
+  st_toks (drop_loop sym s) = st_toks s /\ st_keys (drop_loop sym s) = st_keys s
+  /\ immediate (drop_loop sym s) = immediate s /\ loc (drop_loop sym s) = loc s
+  /\ functions (drop_loop sym s) = functions s.
+Proof. unfold drop_loop. destruct (find_loop_rev sym (loops s)); repeat split; reflexivity. Qed.
+
+Lemma equiet_start_loop sym a b c : type_of_name sym = TyNumber -> equiet (fun _ : unit => True) (start_loop sym a b c).
+Proof.
+  intros Hty s sa HR. pose proof (caps_start_loop sym a b c s) as G. unfold inv_rel in G.
+  assert (Htm : type_matches sym (VNum a) = true).
+  { unfold type_matches, type_of_name in *. destruct (ends_with_dollar sym); [discriminate | reflexivity]. }
+  destruct (drop_loop_fields sym s) as (D1 & D2 & D3 & D4 & D5).
+  rewrite start_loop_eq in *. cbv zeta in *.
+  destruct (Nat.eqb (length (loops (drop_loop sym s))) stack_limit); [exact I|].
+  rewrite variables_set_eq in *. rewrite Htm in *. cbn [snd] in G. split; [|exact I].
+  apply (R_ext s); [exact HR | exact D1 | exact D2 | exact D3 | exact D4 | exact D5 | apply G; apply HR].
+Qed.
+
+Lemma equiet_arrays_create name idx : equiet (fun _ : unit => True) (arrays_create name idx).
+Proof.
+  intros s sa HR. pose proof (caps_arrays_create name idx s) as G. unfold inv_rel in G.
+  unfold arrays_create in *. rewrite StoreProofs.bind_get in *.
+  destruct (alist_has name (arrays s)); [exact I|].
+  unfold bind, lift_res in *.
+  destruct (array_create_value name idx) as [a|e l|p| |] eqn:E; try exact I.
+  - cbn [modify snd fst] in *. split; [|exact I].
+    apply (R_ext s); try reflexivity; [exact HR|]. apply G. apply HR.
+  - exact (array_create_benign _ _ _ _ E).
+Qed.
+
+Lemma sound_ext_l {A B} (P : A -> B -> Prop) (m m' : M A) a : (forall s, m s = m' s) -> sound P m' a -> sound P m a.
+Proof. intros E H s sa acc HR. rewrite E. apply H. exact HR. Qed.
+
+Lemma bind_assoc_m {A B C'} (m : M A) (f : A -> M B) (g : B -> M C') s :
+  bind (bind m f) g s = bind m (fun a => bind (f a) g) s.
+Proof. unfold bind. destruct (m s) as [[a| | | |] s1]; reflexivity. Qed.
+
+Section StmtLock2.
+  Variables f1 f2 nest : nat.
+
+  Lemma sound_number_expr :
+    sound (fun _ _ => True) (fv <- evaluate_expression f1 nest ;; expect_number fv)
+                            (a <-- analyze_expression f2 nest ;; check_number a).
+  Proof.
+    apply (sound_bind K); [apply expression_check_sound|]. intros v t Hk. unfold K in Hk.
+    destruct v as [b|x]; cbn [kind] in Hk; subst t; unfold check_number, check; cbn [vtype_eqb expect_number].
+    - apply sound_afail.
+    - apply sound_ret. exact I.
+  Qed.
+
+  Lemma sound_for : sound (fun _ _ => True) (evaluate_for_statement f1 nest) (an_for f2 nest).
+  Proof.
+    unfold evaluate_for_statement, an_for.
+    apply (sound_bind eq); [apply sound_cursor, cp_next_token|]. intros t t' <-.
+    destruct t as [t|]; [|apply sound_afail].
+    destruct t; try apply sound_afail.
+    lazymatch goal with |- context [type_of_name ?n] => set (sym := n) end.
+    apply (sound_right (fun _ => True)); [apply aquiet_prev_loc|]. intros l _.
+    apply (sound_right (fun _ => True)); [apply aquiet_log|]. intros _ _.
+    (* the loop variable must be numeric *)
+    unfold check_number at 1, check at 1.
+    destruct (vtype_eqb (type_of_name sym) TyNumber) eqn:Ev; [|apply sound_afail_bind].
+    assert (Hty : type_of_name sym = TyNumber) by (destruct (type_of_name sym); [discriminate | reflexivity]).
+    apply (sound_right (fun _ => True)); [apply aquiet_ret; exact I|]. intros _ _.
+    apply (sound_bind eq); [apply sound_cursor, cp_expect|]. intros _ _ _.
+    apply (sound_bind K); [apply expression_check_sound|]. intros v1 t1 Hk1. unfold K in Hk1.
+    destruct v1 as [b1|x1]; cbn [kind] in Hk1; subst t1; unfold check_number at 1, check at 1; cbn [vtype_eqb expect_number];
+      [apply sound_afail_bind|].
+    apply (sound_bind (fun _ _ => True)); [apply sound_ret; exact I|]. intros from ? _.
+    apply (sound_bind eq); [apply sound_cursor, cp_expect|]. intros _ _ _.
+    apply (sound_bind K); [apply expression_check_sound|]. intros v2 t2 Hk2. unfold K in Hk2.
+    destruct v2 as [b2|x2]; cbn [kind] in Hk2; subst t2; unfold check_number at 1, check at 1; cbn [vtype_eqb expect_number];
+      [apply sound_afail_bind|].
+    apply (sound_bind (fun _ _ => True)); [apply sound_ret; exact I|]. intros to ? _.
+    apply (sound_bind eq); [apply sound_cursor, cp_accept|]. intros st st' <-.
+    destruct st.
+    - eapply sound_ext_l; [intros s0; apply bind_assoc_m|].
+      apply (sound_bind K); [apply expression_check_sound|]. intros v3 t3 Hk3. unfold K in Hk3.
+      destruct v3 as [b3|x3]; cbn [kind] in Hk3; subst t3; unfold check_number, check; cbn [vtype_eqb expect_number];
+        [apply sound_afail_bind|].
+      apply (sound_bind (fun _ _ => True)); [apply sound_ret; exact I|]. intros step ? _.
+      apply (sound_quiet (fun _ => True) (fun _ => True)); [apply equiet_start_loop; exact Hty | apply aquiet_ret; exact I | intros; exact I].
+    - apply (sound_left (fun _ => True)); [apply equiet_ret; exact I|]. intros step _.
+      apply (sound_quiet (fun _ => True) (fun _ => True)); [apply equiet_start_loop; exact Hty | apply aquiet_ret; exact I | intros; exact I].
+  Qed.
+  Lemma sound_dim : sound (fun _ _ => True) (evaluate_dim_statement f1 nest) (an_dim f2 nest).
+  Proof.
+    unfold evaluate_dim_statement, an_dim.
+    apply (sound_bind (fun lv alv => lv_sym lv = alv_sym alv)); [apply sound_parse_lvalue|]. intros lv alv _.
+    destruct (lv_index lv) as [idx|].
+    - apply (sound_quiet (fun _ => True) (fun _ => True)); [apply equiet_arrays_create | apply aquiet_log | intros; exact I].
+    - apply (sound_quiet (fun _ => True) (fun _ => True)); [apply equiet_ret; exact I | apply aquiet_log | intros; exact I].
+  Qed.
+
+  Lemma equiet_next_data : equiet (fun _ : option data_elem => True) next_data_element.
+  Proof.
+    intros s sa HR. pose proof (caps_next_data s) as G. unfold inv_rel in G.
+    unfold next_data_element in *.
+    destruct (data_it s) as [d|].
+    - destruct (data_next _ d) as [e d']. cbn [snd] in G. split; [|exact I].
+      apply (R_ext s); try reflexivity; [exact HR|]. apply G. apply HR.
+    - destruct (data_chunks (st_keys s) (st_toks s)) as [cs|e l|pp| |]; try exact I.
+      destruct (data_next _ _) as [e d']. cbn [snd] in G. split; [|exact I].
+      apply (R_ext s); try reflexivity; [exact HR|]. apply G. apply HR.
+  Qed.
+
+  Lemma coerce_kind' name e v : coerce_data name e = Ok v -> kind v = type_of_name name.
+  Proof.
+    unfold coerce_data, type_of_name. destruct (ends_with_dollar name), e; intros H; inversion H; reflexivity.
+  Qed.
+
+  Lemma coerce_benign name e er l : coerce_data name e = Err er l -> benign er.
+  Proof.
+    unfold coerce_data. destruct (ends_with_dollar name), e; intros H; inversion H; exact I.
+  Qed.
+
+  Lemma aquiet_an_assign alv : aquiet (fun _ : unit => True) (an_assign alv (type_of_name (alv_sym alv))).
+  Proof.
+    intros sa acc. unfold an_assign, abind, log_access, check, aret. cbn [fst snd].
+    destruct (type_of_name (alv_sym alv)); cbn; split; [reflexivity | exact I | reflexivity | exact I].
+  Qed.
+
+  Lemma sound_read : sound (fun _ _ => True) (evaluate_read_statement f1 nest) (an_read f2 nest).
+  Proof.
+    unfold evaluate_read_statement, an_read.
+    apply (sound_repeat (fun _ _ => True)); [|exact I]. intros [] [] _.
+    apply (sound_bind (fun lv alv => lv_sym lv = alv_sym alv)); [apply sound_parse_lvalue|]. intros lv alv Hsym.
+    (* the interpreter fetches, converts and stores; the checker records the write *)
+    apply (sound_left (fun _ => True)); [apply equiet_next_data|]. intros e _.
+    destruct e as [e|]; [|apply sound_fail_benign; exact I].
+    unfold lift_res.
+    destruct (coerce_data (lv_sym lv) e) as [v|er l|pp| |] eqn:Ec.
+    - apply (sound_left (fun x => x = v)); [intros s sa HR; cbn; split; [exact HR | reflexivity]|]. intros v0 ->.
+      apply (sound_left (fun _ => True)).
+      { destruct lv as [sym idx]. cbn [lv_sym] in *. apply equiet_assign. apply (coerce_kind' _ _ _ Ec). }
+      intros _ _.
+      apply (sound_right (fun _ => True)); [apply aquiet_an_assign|]. intros _ _.
+      apply (sound_bind eq); [apply sound_cursor, cp_accept|]. intros c c' <-.
+      apply sound_ret. destruct c; exact I.
+    - intros s sa acc HR. unfold bind. cbn.
+      match goal with |- match ?x with _ => _ end => destruct x as [[y|? ?|?| |] [? ?]] end; try exact I.
+      exact (coerce_benign _ _ _ _ Ec).
+    - intros s sa acc HR. unfold bind. cbn.
+      match goal with |- match ?x with _ => _ end => destruct x as [[y|? ?|?| |] [? ?]] end; exact I.
+    - intros s sa acc HR. unfold bind. cbn.
+      match goal with |- match ?x with _ => _ end => destruct x as [[y|? ?|?| |] [? ?]] end; exact I.
+    - intros s sa acc HR. unfold bind. cbn.
+      match goal with |- match ?x with _ => _ end => destruct x as [[y|? ?|?| |] [? ?]] end; exact I.
+  Qed.
+End StmtLock2.
+
+(* ---- every statement that neither branches nor jumps ---- *)
+
+(* the two dispatchers, on the token the cursor has just passed *)
+Definition edispatch (f nest : nat) (rec : M unit) (t : option token) : M unit :=
+  match t with
+  | Some TStop => break_at_current_location
+  | Some TDim => evaluate_dim_statement f nest
+  | Some TPrint | Some TQuestionMark => evaluate_print_statement f nest
+  | Some TInput => evaluate_input_statement f nest
+  | Some TIf => evaluate_if_statement f nest rec
+  | Some TGoto => evaluate_goto_statement
+  | Some TGosub => evaluate_gosub_statement
+  | Some TReturn => return_to_last_gosub
+  | Some TEnd => program_end
+  | Some TFor => evaluate_for_statement f nest
+  | Some TNext => evaluate_next_statement
+  | Some TRestore => reset_data_cursor
+  | Some TDef => evaluate_def_statement f
+  | Some TRead => evaluate_read_statement f nest
+  | Some (TRemark _) => ret tt
+  | Some TColon => ret tt
+  | Some (TData _) => ret tt
+  | Some TLet => evaluate_let_statement f nest
+  | Some (TSymbol sym) => evaluate_assignment_statement f nest sym
+  | Some TElse => b <- is_else_of_then_clause ;; if b then discard_remaining_tokens else fail EUnexpectedToken
+  | Some _ => fail EUnexpectedToken
+  | None => ret tt
+  end.
+
+Lemma evaluate_statement_body_dispatch f nest rec :
+  evaluate_statement_body f nest rec =
+  (tr <- get enable_tracing ;;
+   (if tr then l <- get_line_number ;; match l with Some n => push_output (OTrace n) | None => ret tt end else ret tt) ;;;
+   t <- next_token ;; edispatch f nest rec t).
+Proof. reflexivity. Qed.
+
+Definition adispatch (f nest : nat) (rec : MA unit) (t : option token) : MA unit :=
+  match t with
+  | Some TStop => aret tt
+  | Some TDim => an_dim f nest
+  | Some TPrint | Some TQuestionMark => an_print f nest
+  | Some TInput => an_input f nest
+  | Some TIf => an_if f nest rec
+  | Some TGoto | Some TGosub => an_goto_or_gosub
+  | Some TReturn => aret tt
+  | Some TEnd => aret tt
+  | Some TFor => an_for f nest
+  | Some TNext => an_next
+  | Some TRestore => lift reset_data_cursor
+  | Some TDef => an_def f nest
+  | Some TRead => an_read f nest
+  | Some (TRemark _) => aret tt
+  | Some TColon => aret tt
+  | Some (TData _) => aret tt
+  | Some TLet => an_let f nest
+  | Some (TSymbol sym) => an_assignment f nest sym
+  | Some _ => afail EUnexpectedToken
+  | None => aret tt
+  end.
+
+Lemma an_statement_body_dispatch f nest rec :
+  an_statement_body f nest rec = (t <-- lift next_token ;; adispatch f nest rec t).
+Proof. reflexivity. Qed.
+
+Definition straight_head (t : option token) : bool :=
+  match t with
+  | None => true
+  | Some (TDim | TPrint | TQuestionMark | TFor | TRestore | TRead | TRemark _ | TColon | TData _ | TLet | TSymbol _) => true
+  | Some _ => false
+  end.
+
+(* whichever of  v = e, LET, PRINT, ?, DIM, FOR, READ, RESTORE, REM, DATA, ":"
+   the dispatchers have just seen: accepted by the checker => executed without
+   a syntax error or a type mismatch, the two cursors together again behind it *)
+Theorem straight_statement_sound : forall f1 f2 nest rec arec t, straight_head t = true ->
+  sound (fun _ _ => True) (edispatch f1 nest rec t) (adispatch f2 nest arec t).
+Proof.
+  intros f1 f2 nest rec arec t Hst.
+  destruct t as [t|]; [|apply sound_ret; exact I].
+  destruct t; try discriminate Hst; cbn [edispatch adispatch]; try (apply sound_ret; exact I);
+    try apply sound_print; try apply sound_let; try apply sound_dim; try apply sound_for; try apply sound_read;
+    try apply sound_assignment.
+Qed.
